@@ -301,6 +301,22 @@ impl Scenario for C10 {
                     if let Some(Ok(f)) = first {
                         acc ^= f.0.rotate_left(cp % 61);
                     }
+                    // a UTF-8 file that ends in the middle of this character (every cut inside it): the result must be that of
+                    // the std lossy conversion (one U+FFFD for the incomplete sequence)
+                    let clen = c.len_utf8();
+                    if clen >= 2 {
+                        let full = text.as_bytes();
+                        for cut in 1..clen {
+                            let b = &full[..full.len() - cut];
+                            let got = from_bytes_fp(Dec::Metadata, b).map_err(|e| e.kind());
+                            let mut reference = vec![0xEF, 0xBB, 0xBF];
+                            reference.extend_from_slice(model_text(b).as_bytes());
+                            let want = from_bytes_fp(Dec::Metadata, &reference).map_err(|e| e.kind());
+                            if got != want {
+                                return Err(Violation::new(if got.is_err() { "C10/decode-error" } else { "C10/lossy-mismatch" }, sig_for(b), format!("a UTF-8 file ending {cut} byte(s) short of the end of U+{cp:04X}: {:?}, the std lossy conversion of the payload gives {:?}", got, want)));
+                            }
+                        }
+                    }
                     // odd tails: the scalar is the last complete code unit of the file and a dangling byte follows — the
                     // result must be that of the std lossy conversion (which drops the dangling byte only)
                     for enc in [Enc::Utf16Le, Enc::Utf16Be] {
